@@ -162,7 +162,8 @@ class Axis(GetSetDelAttrMixin, AbstractAxis):
             return values # if collapsed to scalar, just return it
         if type(item) is slice:
             values = values.copy() # not a view: two Axis objects must not share their labels
-        newaxis = Axis(values, self.name, tol=self.tol, **self.attrs)
+        newaxis = Axis(values, self.name, tol=self.tol)
+        newaxis.attrs.update(self.attrs) # (not as keyword arguments: a metadata key may be 'name', 'tol', 'dtype' ...)
         # slices keep the ordering
         if self._monotonic and type(item) is slice:
             newaxis._monotonic = self._monotonic
@@ -208,7 +209,9 @@ class Axis(GetSetDelAttrMixin, AbstractAxis):
         subaxis : Axis instance
         """
         values = self._values.take(indices, mode=mode)
-        return Axis(values, self.name, tol=self.tol, **self.attrs)
+        newaxis = Axis(values, self.name, tol=self.tol)
+        newaxis.attrs.update(self.attrs) # (not as keyword arguments: a metadata key may be 'name', 'tol', 'dtype' ...)
+        return newaxis
 
 
     def set(self, values=None, name=None, inplace=True, **kwargs):
